@@ -257,7 +257,15 @@ def run(chk: Check):
             continue
         # build
         try:
-            s = ss.SearchSpace(b_in, p_in, verbose=False)
+            # verbosity only prints: every third space is built verbosely (output discarded)
+            vb = (len(prec) + len(str(bounds))) % 3 == 0
+            if vb:
+                import contextlib, io
+                with contextlib.redirect_stdout(io.StringIO()):
+                    s = ss.SearchSpace(b_in, p_in, verbose=True)
+                chk.count("built:verbose")
+            else:
+                s = ss.SearchSpace(b_in, p_in, verbose=False)
             grids = s.param_grid
             impl_f = f"ok {len(grids)} " + " ".join(fl(g) for g in grids) + f" {s.space_size}"
         except ss.SearchSpaceError as e:
